@@ -168,7 +168,7 @@ def positionStart (p : Array Pos) (len : Nat) : M (Array Pos) :=
 
 /-! ### value records, mark attachment -/
 
-/-- the four plain fields of a ValueRecord (device / variation deltas are out of scope) -/
+/-- the four plain fields of a ValueRecord (with the device tables: `ValueRecordD` below) -/
 structure ValueRecord where
   xPlacement : Int := 0
   yPlacement : Int := 0
@@ -199,6 +199,69 @@ def ValueRecord.isEmpty (v : ValueRecord) : Bool :=
 def pairApply (v1 v2 : ValueRecord) (d : Dir) (p : Array Pos) (i j : Nat) : M (Array Pos × Bool × Bool) := do
   let (p, f1) ← if !v1.isEmpty then valueApply v1 d p i else .ok (p, false)
   let (p, f2) ← if !v2.isEmpty then valueApply v2 d p j else .ok (p, false)
+  .ok (p, f1, f2)
+
+/-! #### value records with Device / VariationIndex tables
+
+The delta a device yields (`get_x_delta(face).unwrap_or(0)` / `get_y_delta`: ttf-parser's reading of the table at the
+face's ppem, or the GDEF variation store at the face's coordinates) is external data: a parameter.  What is modelled is
+which deltas `apply_to_pos` uses, on which field, under which direction and face state. -/
+
+/-- a value record with its four optional device tables; `some δ` = the offset is present and parses,
+    `δ` = what `device.get_{x,y}_delta(face).unwrap_or(0)` returns (x for the X fields, y for the Y fields) -/
+structure ValueRecordD extends ValueRecord where
+  xPlaDevice : Option Int := none
+  yPlaDevice : Option Int := none
+  xAdvDevice : Option Int := none
+  yAdvDevice : Option Int := none
+deriving DecidableEq, Repr, Inhabited
+
+/-- src: ot_layout_gpos_table.rs::ValueRecordExt::apply_to_pos, whole function.
+    `useX` = `ppem_x != 0 || coords != 0`, `useY` = `ppem_y != 0 || coords != 0`. -/
+def valueApplyToPosD (v : ValueRecordD) (useX useY : Bool) (d : Dir) (q : Pos) : Pos × Bool :=
+  let h := d.isHorizontal
+  let (q, w) := valueApplyToPos v.toValueRecord d q
+  let (q, w) :=
+    if useX then
+      match v.xPlaDevice with
+      | some δ => ({ q with xo := q.xo + δ }, true)          -- "TODO: even when 0?"
+      | none => (q, w)
+    else (q, w)
+  let (q, w) :=
+    if useY then
+      match v.yPlaDevice with
+      | some δ => ({ q with yo := q.yo + δ }, true)
+      | none => (q, w)
+    else (q, w)
+  let (q, w) :=
+    if h && useX then
+      match v.xAdvDevice with
+      | some δ => ({ q with xa := q.xa + δ }, true)
+      | none => (q, w)
+    else (q, w)
+  let (q, w) :=
+    if !h && useY then
+      match v.yAdvDevice with
+      | some δ => ({ q with ya := q.ya - δ }, true)           -- grows downward, hence the negation
+      | none => (q, w)
+    else (q, w)
+  (q, w)
+
+/-- src: ot_layout_gpos_table.rs::ValueRecordExt::apply -/
+def valueApplyD (v : ValueRecordD) (useX useY : Bool) (d : Dir) (p : Array Pos) (idx : Nat) : M (Array Pos × Bool) := do
+  let q ← get p idx
+  let r := valueApplyToPosD v useX useY d q
+  .ok (put p idx r.1, r.2)
+
+/-- src: ot_layout_gpos_table.rs::ValueRecordExt::is_empty -/
+def ValueRecordD.isEmpty (v : ValueRecordD) : Bool :=
+  v.toValueRecord.isEmpty && v.xPlaDevice.isNone && v.yPlaDevice.isNone && v.xAdvDevice.isNone && v.yAdvDevice.isNone
+
+/-- src: GPOS/pair_pos.rs `bail` -/
+def pairApplyD (v1 v2 : ValueRecordD) (useX useY : Bool) (d : Dir) (p : Array Pos) (i j : Nat) :
+    M (Array Pos × Bool × Bool) := do
+  let (p, f1) ← if !v1.isEmpty then valueApplyD v1 useX useY d p i else .ok (p, false)
+  let (p, f2) ← if !v2.isEmpty then valueApplyD v2 useX useY d p j else .ok (p, false)
   .ok (p, f1, f2)
 
 /-- `i16::MAX`: the largest distance an `attach_chain` link may span -/
